@@ -57,17 +57,18 @@ Theorem C04_stored_gradient_is_minus_mean :
 Proof. exact stored_gradient_is_minus_mean_const. Qed.
 Print Assumptions C04_stored_gradient_is_minus_mean.
 
-(* ---- T1i.  inputPrefix: a run started from data read from .count/.grad files ends with
-   count = count read + number of attributed samples, sum = gradient read * count read - sum of their forces. *)
+(* ---- T1i.  inputPrefix (a list of prefixes, one data set each, added in order): a run started from data read
+   from .count/.grad files ends with count = counts read + number of attributed samples,
+   sum = sum over the data sets of gradient read * count read - sum of the sample forces. *)
 Theorem C04_abf_state_with_input_data :
-  forall (c : @abf_cfg R) (cnt0 : idx -> Z) (grad0 : idx -> @vec R) (h : list (@abf_in R)) (b : idx) (a : bool),
+  forall (c : @abf_cfg R) (l : list (@dataset R)) (h : list (@abf_in R)) (b : idx) (a : bool),
     wf_cfg c -> apply_const a h ->
-    let s0 := abf_init_data Rops c cnt0 grad0 in
-    let r := abf_run_data Rops c cnt0 grad0 h in
+    let s0 := abf_init_data Rops c l in
+    let r := abf_run_data Rops c l h in
     let S := attributed Rops c (trace_from Rops c s0 h) in
-    s_cnt (fst r) b = (cnt0 b + cnt_of b S)%Z /\
+    s_cnt (fst r) b = (data_cnt l b + cnt_of b S)%Z /\
     forall k, (k < c_nd c)%nat ->
-      vget Rops (s_sum (fst r) b) k = (vget Rops (grad0 b) k * IZR (cnt0 b) - fsum_of Rops k b S)%R.
+      vget Rops (s_sum (fst r) b) k = (data_sum l b k - fsum_of Rops k b S)%R.
 Proof. exact abf_state_with_input_data_const. Qed.
 Print Assumptions C04_abf_state_with_input_data.
 
